@@ -1,63 +1,16 @@
-import Knut.Wire
-import Knut.Model.Partition
-import Knut.Spec.PartitionSpec
+import Knut.Driver.C11
+import Knut.Driver.Dec
+/-! Line-protocol driver over the executable model: one request per line (`op field*`), one answer line.
+Each property contributes a handler module `Knut/Driver/<X>.lean`; add it to `handlers`. -/
 open Knut Knut.Wire
 
-def ivOfNat : Nat → Option Interval
-  | 0 => some .once | 1 => some .daily | 2 => some .weekly | 3 => some .monthly
-  | 4 => some .quarterly | 5 => some .yearly | _ => none
-
-def allIntervals : List Interval := [.once, .daily, .weekly, .monthly, .quarterly, .yearly]
-
-def showPeriods (ps : List Period) : String :=
-  ps.foldl (fun s p => s ++ s!" {p.start}:{p.stop}") ""
-
-def parsePeriods (s : String) : Option (List Period) :=
-  if s = "-" then some [] else
-  (splitOn s ',').mapM (fun f =>
-    match splitOn f ':' with
-    | [a, b] => do let x ← parseInt a; let y ← parseInt b; pure (⟨x, y⟩ : Period)
-    | _ => none)
-
-def showOptInt : Option Int → String
-  | some z => toString z
-  | none => "none"
+def handlers : List (List String → Option String) := [
+  Knut.Driver.C11.handle,
+  Knut.Driver.Dec.handle
+]
 
 def handle (fields : List String) : String :=
-  match fields with
-  | ["cal", z] =>
-    match parseInt z with
-    | some z =>
-      let base := s!"{Date.year z} {Date.month z} {Date.day z} {Date.weekday z}"
-      let ss := allIntervals.foldl (fun s iv => s ++ s!" {startOf z iv}") ""
-      let es := allIntervals.foldl (fun s iv => s ++ s!" {endOf z iv}") ""
-      base ++ ss ++ es
-    | none => "bad-op"
-  | ["part", a, b, iv, last] =>
-    match parseInt a, parseInt b, (iv.toNat?.bind ivOfNat), parseInt last with
-    | some a, some b, some iv, some last =>
-      match newPartition ⟨a, b⟩ iv last with
-      | .ok p => "ok" ++ showPeriods p.periods
-      | .panic _ => "panic"
-    | _, _, _, _ => "bad-op"
-  | ["align", a, b, iv, last, d] =>
-    match parseInt a, parseInt b, (iv.toNat?.bind ivOfNat), parseInt last, parseInt d with
-    | some a, some b, some iv, some last, some d =>
-      match newPartition ⟨a, b⟩ iv last with
-      | .ok p => showOptInt (p.align d)
-      | .panic _ => "panic"
-    | _, _, _, _, _ => "bad-op"
-  | ["c11mon", a, b, iv, last, ps] =>
-    match parseInt a, parseInt b, (iv.toNat?.bind ivOfNat), parseInt last, parsePeriods ps with
-    | some a, some b, some iv, some last, some ps =>
-      if Spec.partitionOK a b iv last ps then "ok" else "fail"
-    | _, _, _, _, _ => "bad-op"
-  | ["c11alignmon", b, ps, d, res] =>
-    match parseInt b, parsePeriods ps, parseInt d with
-    | some b, some ps, some d =>
-      if showOptInt (Spec.alignSpec b ps d) = res then "ok" else s!"fail want {showOptInt (Spec.alignSpec b ps d)}"
-    | _, _, _ => "bad-op"
-  | _ => "bad-op"
+  (handlers.findSome? (fun h => h fields)).getD "bad-op"
 
 partial def loop (hin hout : IO.FS.Stream) : IO Unit := do
   let line ← hin.getLine
